@@ -377,7 +377,12 @@ def inst_projector(which, p, partial):
             return None
 
         recs, ms = verify_instance(which, label, {which: S.fn[which]}, _contracts_for(which), mk, spec, lambda a, k: [], atoms=[d], expect_kind="abstract")
-        rc = [dict(clause="proj.%s" % ("sym" if which.startswith("sym") else "antisym"), function=which, input_class="%s/p=%d" % (which, p), params=dict(d=dd, p=p, partial=partial)) for dd in (1, 2, 3) if dd**p <= 256]
+        pre_ = "sym" if which.startswith("sym") else "asym"
+        rc = []
+        for dd in (1, 2, 3):
+            if dd**p <= 256:
+                for cl in (["%s.partial_span" % pre_, "%s.partial_orthonormal" % pre_] if partial else ["%s.explicit" % pre_, "%s.hermitian_idempotent" % pre_]):
+                    rc.append(dict(clause=cl, function=which, input_class="%s/E1-replay/p=%d" % (which, p), params=dict(d=dd, p=p)))
         return recs, ms, rc
 
     return label, run
